@@ -143,3 +143,6 @@ class JSON:
             return json.dumps(left, default=self.default, indent=indent)
         except (TypeError, ValueError) as err:
             raise LiquidTypeError(str(err), token=None) from err
+        except (MemoryError, OverflowError) as err:
+            # `indent` spaces are repeated for every level of nesting.
+            raise LiquidTypeError("json: indent is too large", token=None) from err
